@@ -8,8 +8,8 @@ CONSTANTS
   MaxBodyM = 3
   RespSizes = {0, 1}
   MaxFrames = 6
-  Ops = {"hdr", "data", "rst", "finish", "credit"}
-  EmitOneIn = 1
+  Ops = {"hdr", "data", "rst", "finish", "credit", "defect-nostreamcredit"}
+  EmitOneIn = 0
 VIEW View
 INVARIANTS C08_Reaction C01_DispatchOnce C01_DispatchLegal C01_EndOnce C10_GoAwayTruth C13_Slots C13_OpenIsSlots C14_ConnCredit C14_StreamCredit
 CONSTRAINT EmitState
